@@ -66,6 +66,28 @@ def const_asym_gate(k):
     return CustomGateDefinition(f"K{k}", sympy.Matrix(rows), ())()
 
 
+def const_diag_gate(k):
+    """Constant DIAGONAL k-qubit custom gate whose diagonal entries are pairwise different (so any re-ordering of the
+    gate's own qubits is visible): the structure a diagonal fast path would look for."""
+    from orquestra.quantum.circuits import CustomGateDefinition
+
+    n = 2**k
+    rows = [[(sympy.Rational(2 * i + 1, 4) + I * sympy.Rational(i * i % 5 - 2, 8)) if i == j else 0 for j in range(n)] for i in range(n)]
+    return CustomGateDefinition(f"D{k}", sympy.Matrix(rows), ())()
+
+
+def const_monomial_gate(k):
+    """Constant monomial (permutation times distinct phases/weights) k-qubit custom gate, asymmetric."""
+    from orquestra.quantum.circuits import CustomGateDefinition
+
+    n = 2**k
+    perm = [(3 * i + 1) % n if n > 2 else 1 - i for i in range(n)]
+    if sorted(perm) != list(range(n)):
+        perm = list(range(1, n)) + [0]
+    rows = [[(sympy.Rational(i + 1, 2) - I * sympy.Rational(i % 3, 4)) if j == perm[i] else 0 for j in range(n)] for i in range(n)]
+    return CustomGateDefinition(f"P{k}", sympy.Matrix(rows), ())()
+
+
 def gate_by_id(gid):
     """gate ids: builtin constant name (H, CNOT...), 'RX(expr)' builtin parametric with sympy
     expression text, 'G1'/'G2'/'G3' generic, 'K1'/'K2'/'K3' constant asymmetric custom,
@@ -79,6 +101,10 @@ def gate_by_id(gid):
         g = sparse_generic_gate(int(base[2:]))
     elif base[0] == "K" and base[1:].isdigit():
         g = const_asym_gate(int(base[1:]))
+    elif base[0] == "D" and base[1:].isdigit():
+        g = const_diag_gate(int(base[1:]))
+    elif base[0] == "P" and base[1:].isdigit():
+        g = const_monomial_gate(int(base[1:]))
     elif base in ("CDI", "CSY(th0)", "CSY(0.7)"):
         from .props import c07
 
